@@ -12,8 +12,11 @@ import json, os, sys, time, hashlib
 
 VERIF = os.path.dirname(os.path.dirname(os.path.abspath(__file__)))
 REPO = os.environ.get("VERIF_REPO", "/repo")
-EVID = os.path.join(VERIF, "evidence")
-REPLAYS = os.path.join(VERIF, "replays")
+# VERIF_OUT redirects evidence/replays (used when trying a check against a scratch copy of the repo, so
+# that the committed evidence only ever comes from /repo itself)
+OUT = os.environ.get("VERIF_OUT", VERIF)
+EVID = os.path.join(OUT, "evidence")
+REPLAYS = os.path.join(OUT, "replays")
 KNOWN = os.path.join(VERIF, "known_findings.json")
 
 
